@@ -34,6 +34,9 @@ func c09Tables() [][]kv {
 		{{[]byte("a"), []byte("alpha")}, {[]byte("b"), []byte{0x91, 0x8d, 0x4c, 0x01}}, {[]byte("c"), []byte("a-thirty-byte-long-value-012345")}},
 		{{[]byte{}, []byte("x")}, {[]byte("k"), []byte("yy")}, {[]byte("kk"), []byte("x")}},
 		{{[]byte("a"), incompressible(300, 5)}, {[]byte("b"), []byte("short")}, {[]byte("c"), incompressible(300, 6)}},
+		// an empty and a nil value (stored checksum 0) in front of and between non-empty ones: whatever the reader does for
+		// zero checksums must not carry over to the records around them
+		{{[]byte("a"), []byte{}}, {[]byte("b"), []byte("bravo-value")}, {[]byte("c"), nil}, {[]byte("d"), []byte("delta-value")}},
 	}
 }
 
@@ -67,7 +70,7 @@ func (c c09) Run(ctx *core.Ctx) error {
 	}
 	ctx.Ev.Bounds["large_tables_records"] = bigNs
 	ctx.Ev.Level = "fault_enumeration"
-	ctx.Ev.Rule = "3 tables of 3 records with non-empty values (one containing the marker bytes, one with 300-byte values) x 4 data compressions x {verify-on-load (default), skip-on-load + verify-on-read} x loaders; damage of data.rio = every byte offset x {8 bit flips, 00, ff, 91, 8d, 4c}, every truncation length, every swap of two whole records; after each damage: open, Get of every key, full Scan, ScanRange(all), then Get of every key twice more - each step must fail or return exactly the written value. Large tables (record counts in bounds): for every record of the table one bit of its value flipped, then open and Get of that key twice. distinct = (table, config, damage)"
+	ctx.Ev.Rule = "3 tables of 3 records with non-empty values (one containing the marker bytes, one with 300-byte values) and one table of 4 records with an empty and a nil value between non-empty ones x 4 data compressions x {verify-on-load (default), skip-on-load + verify-on-read} x loaders; damage of data.rio = every byte offset x {8 bit flips, 00, ff, 91, 8d, 4c}, every truncation length, every swap of two whole records; after each damage: open, Get of every key, full Scan, ScanRange(all), then Get of every key twice more - each step must fail or return exactly the written value. Large tables (record counts in bounds): for every record of the table one bit of its value flipped, then open and Get of that key twice. distinct = (table, config, damage)"
 	ctx.Ev.Bounds["loaders"] = loaders
 	rs := ctx.Pmap(cases)
 	ctx.Fold(rs, cases)
@@ -134,6 +137,15 @@ func (c c09) Case(w *core.WCtx, payload json.RawMessage) core.Result {
 			r.Viol = append(r.Viol, core.Violation{Desc: fmt.Sprintf("table %d comp=%d mode=%s loader=%s: %s", cs.Table, cs.Comp, cs.Mode, cs.Loader, fmt.Sprintf(f, a...)), Case: core.J(nc)})
 		}
 	}
+	// same: the statement is about keys with a non-empty value. An empty or nil value carries checksum zero by format
+	// design (no hash comparison is possible), so nothing is demanded for those keys; they are in the fourth table only
+	// because of what they may do to the verification of the records around them.
+	same := func(got, written []byte) bool {
+		if len(written) == 0 {
+			return true
+		}
+		return recEq(got, written)
+	}
 	check := func(nc c09Case, what string, damaged []byte) {
 		os.WriteFile(dataPath, damaged, 0o644)
 		r.Traces++
@@ -166,7 +178,7 @@ func (c c09) Case(w *core.WCtx, payload json.RawMessage) core.Result {
 					failed = true
 					continue
 				}
-				if !recEq(v, e.V) {
+				if !same(v, e.V) {
 					viol(nc, "%s: %sGet(%s) returned %s without error, written %s", what, round, keyStr(e.K), recStr(v), recStr(e.V))
 				}
 			}
@@ -194,7 +206,7 @@ func (c c09) Case(w *core.WCtx, payload json.RawMessage) core.Result {
 					viol(nc, "%s: %s yields extra record %s", what, name, keyStr(k))
 					return
 				}
-				if string(k) != string(table[i].K) || !recEq(v, table[i].V) {
+				if string(k) != string(table[i].K) || !same(v, table[i].V) {
 					viol(nc, "%s: %s step %d returned %s=%s without error, written %s=%s", what, name, i, keyStr(k), recStr(v), keyStr(table[i].K), recStr(table[i].V))
 					return
 				}
